@@ -39,8 +39,11 @@ ImplDesigned ==
       whiteReAddForgetsLost |-> FALSE,  \* F14: whitelist hide, show, hide in one window
       ackOnReceipt          |-> FALSE,  \* F1: client acknowledges mutate messages it only buffered
       periodicAckSwallow    |-> FALSE,  \* F4: ack of a message advances the tick past an unsent periodic change
+      periodicBumpSwallow   |-> FALSE,
+      ackDiscarded          |-> FALSE,  \* F19: a message whose data was discarded as outdated is still acknowledged  \* F18: a structural change advances the tick past an unsent periodic change
       emptyMutateWithGraphs |-> FALSE,  \* F11: empty mutate message per tick once relation graphs exist
-      refBeforeSpawnUnmarked|-> FALSE ] \* F8: entity first seen as a reference never gets the marker
+      refBeforeSpawnUnmarked|-> FALSE,  \* F8: entity first seen as a reference never gets the marker
+      seedLeakHidden        |-> FALSE ] \* seeded defect (no finding): hidden entities are not filtered from changes
 
 Comp == {"A", "B", "P", "O"}
 Rate(k) == CASE k = "P" -> "periodic" [] k = "O" -> "once" [] OTHER -> "every"
@@ -120,12 +123,16 @@ SpawnF(st, e, ks, repl) ==
 SpawnEnabled(st, e) == ~st.srv.world[e].used
 
 \* OnRemove<Replicated> observer: buffers the despawn while the server is running
+\* (and drops removal records buffered for the entity in earlier frames of the window, unless F3)
 BufferDespawn(srv, e) ==
-    IF srv.running THEN [srv EXCEPT !.despawnBuf = BagAdd(@, e, 1)] ELSE srv
+    IF srv.running
+    THEN [srv EXCEPT !.despawnBuf = BagAdd(@, e, 1),
+                     !.removalBuf = IF Impl.staleRemovalOnDespawn THEN @ ELSE Without(@, e)]
+    ELSE srv
 
 DespawnF(st, e) ==
     LET ent == st.srv.world[e]
-        s1 == [st.srv EXCEPT !.world[e] = [ent EXCEPT !.alive = FALSE, !.repl = FALSE, !.comps = EmptyFn]]
+        s1 == [st.srv EXCEPT !.world[e] = [ent EXCEPT !.alive = FALSE, !.repl = FALSE, !.markerAdd = 0, !.comps = EmptyFn]]
         s2 == IF ent.repl THEN BufferDespawn(s1, e) ELSE s1
     IN [st EXCEPT !.srv = s2]
 DespawnEnabled(st, e) == Alive(st, e)
@@ -134,7 +141,7 @@ MarkF(st, e) == [st EXCEPT !.srv.world[e].repl = TRUE, !.srv.world[e].markerAdd 
 MarkEnabled(st, e) == Alive(st, e) /\ ~st.srv.world[e].repl
 
 UnmarkF(st, e) ==
-    [st EXCEPT !.srv = BufferDespawn([st.srv EXCEPT !.world[e].repl = FALSE], e)]
+    [st EXCEPT !.srv = BufferDespawn([st.srv EXCEPT !.world[e].repl = FALSE, !.world[e].markerAdd = 0], e)]
 UnmarkEnabled(st, e) == Alive(st, e) /\ st.srv.world[e].repl
 
 InsertF(st, e, k) ==
@@ -182,13 +189,15 @@ SetVisibility(vis, e, visible) ==
             ELSE [vis EXCEPT !.list = With(@, e, 0), !.added = @ \cup {e}]
     ELSE IF vis.kind = "white" THEN
         IF visible THEN
+            IF ~Impl.whiteReAddForgetsLost /\ e \in vis.removed
+            THEN \* removed in this window: undo it, the client still holds the entity
+                 [vis EXCEPT !.list = With(@, e, 0), !.removed = @ \ {e}]
+            ELSE
             LET isNewOrJust == e \notin DOMAIN vis.list \/ vis.list[e] = 1
                 list1 == IF e \in DOMAIN vis.list THEN vis.list ELSE With(vis.list, e, 1)
-                removed1 == IF Impl.whiteReAddForgetsLost THEN vis.removed \ {e}
-                            ELSE vis.removed \ {e}
             IN [vis EXCEPT !.list = list1,
                            !.added = IF isNewOrJust THEN @ \cup {e} ELSE @,
-                           !.removed = removed1]
+                           !.removed = @ \ {e}]
         ELSE
             IF e \notin DOMAIN vis.list THEN vis
             ELSE IF e \in vis.added
@@ -256,17 +265,15 @@ BufferRemovals(srv) ==
 
 ReplEnts(srv) == {e \in Ent : srv.world[e].alive /\ srv.world[e].repl}
 
-\* removal records that survive to collect_removals
-LiveRemovals(srv) ==
-    IF Impl.staleRemovalOnDespawn THEN srv.removalBuf
-    ELSE Restrict(srv.removalBuf, {e \in DOMAIN srv.removalBuf : e \in ReplEnts(srv)})
+LiveRemovals(srv) == srv.removalBuf
 
 CollectDespawnsFor(srv, scl) ==
     LET vis0 == scl.vis
         dead == DOMAIN srv.despawnBuf
         cnt(e) == LET n == srv.despawnBuf[e]
                       first == IF IsVisible(vis0, e) THEN 1
-                               ELSE IF ~Impl.noLostDespawnHidden /\ e \in Lost(vis0) THEN 1 ELSE 0
+                               ELSE IF ~Impl.noLostDespawnHidden /\ vis0.kind = "black" /\ e \in vis0.added
+                                    THEN 1 ELSE 0    \* blacklisted in this window: the client still holds it
                   IN CASE vis0.kind = "all"   -> n
                        [] vis0.kind = "black" -> first + (n - 1)
                        [] OTHER               -> first
@@ -283,7 +290,7 @@ ReplicateFor(srv, scl, f) ==
         mt0 == d.mutTick
         remBuf == LiveRemovals(srv)
         rems == Restrict(remBuf, {e \in DOMAIN remBuf : IsVisible(vis, e)})
-        ents == {e \in ReplEnts(srv) : VisState(vis, e) # "Hidden"}
+        ents == {e \in ReplEnts(srv) : VisState(vis, e) # "Hidden" \/ Impl.seedLeakHidden}
         \* per-entity classification, computed once
         info == [e \in ents |->
             LET comps == srv.world[e].comps
@@ -306,7 +313,11 @@ ReplicateFor(srv, scl, f) ==
         ackable == IF Impl.periodicAckSwallow THEN mutEnts
                    ELSE {e \in mutEnts : ~info[e].pendingPeriodic}
         structEnts == {e \in ents : info[e].structural}
-        mt1 == [e \in (DOMAIN mt0) \cup structEnts |-> IF e \in structEnts THEN f ELSE mt0[e]]
+        \* structural changes carry every pending mutation, so the entity's tick is advanced -
+        \* unless (designed / F18) a periodic component still has an unsent change
+        bumped == IF Impl.periodicBumpSwallow THEN structEnts
+                  ELSE {e \in structEnts : ~info[e].pendingPeriodic}
+        mt1 == [e \in (DOMAIN mt0) \cup bumped |-> IF e \in bumped THEN f ELSE mt0[e]]
         maps == SeqToSet(scl.pendingMap)
         nonEmpty == maps # {} \/ DOMAIN d.desp # {} \/ DOMAIN rems # {} \/ chgEnts # {}
         upd == [tick |-> srv.tick, maps |-> maps, desp |-> d.desp, rems |-> rems, chg |-> chg]
@@ -453,8 +464,7 @@ BufInsert(buf, b) ==
     LET n == Cardinality({i \in 1..Len(buf) : b.tick < buf[i].tick})
     IN SubSeq(buf, 1, n) \o <<b>> \o SubSeq(buf, n + 1, Len(buf))
 
-ToBuf(m) == [upd |-> m.upd, tick |-> m.tick, cnt |-> m.cnt, ents |-> m.ents,
-             idx |-> IF Impl.ackOnReceipt THEN -1 ELSE m.idx]
+ToBuf(m) == [upd |-> m.upd, tick |-> m.tick, cnt |-> m.cnt, ents |-> m.ents, idx |-> m.idx]
 
 \* apply one buffered mutate message to the entities it names
 ApplyMutate(ents, b) ==
@@ -468,19 +478,27 @@ ApplyMutate(ents, b) ==
                  ELSE es                                         \* outdated for this entity
     IN FoldSet(one, ents, DOMAIN b.ents)
 
+\* data of b for a known entity is discarded (outdated) or cannot be applied (no history yet)
+Rejected(ents, b) ==
+    \E e \in DOMAIN b.ents : e \in DOMAIN ents /\ (ents[e].hist < 0 \/ b.tick <= ents[e].hist)
+
+\* processes the buffer newest first; `done` = processed messages, `acked` = those acknowledged
 ApplyMutates(cs) ==
     LET ready(b) == b.upd <= cs.updTick
-        step(acc, b) == IF ready(b) THEN [acc EXCEPT !.ents = ApplyMutate(@, b), !.done = Append(@, b)]
-                        ELSE [acc EXCEPT !.keep = Append(@, b)]
-        r == FoldSeq(step, [ents |-> cs.ents, keep |-> <<>>, done |-> <<>>], cs.buf)
-    IN [cs |-> [cs EXCEPT !.ents = r.ents, !.buf = r.keep], done |-> r.done]
+        step(acc, b) ==
+            IF ready(b)
+            THEN [acc EXCEPT !.ents = ApplyMutate(@, b), !.done = Append(@, b),
+                             !.acked = IF Impl.ackDiscarded \/ ~Rejected(acc.ents, b) THEN Append(@, b.idx) ELSE @]
+            ELSE [acc EXCEPT !.keep = Append(@, b)]
+        r == FoldSeq(step, [ents |-> cs.ents, keep |-> <<>>, done |-> <<>>, acked |-> <<>>], cs.buf)
+    IN [cs |-> [cs EXCEPT !.ents = r.ents, !.buf = r.keep], done |-> r.done, acked |-> r.acked]
 
 CliFrameConnected(st, c, cs2) ==
     LET rx == st.net[c].rxMut
         Fin(r) ==
             LET acks == IF Impl.ackOnReceipt
                         THEN IF rx = <<>> THEN <<>> ELSE <<[i \in 1..Len(rx) |-> rx[i].idx]>>
-                        ELSE IF r.done = <<>> THEN <<>> ELSE <<[i \in 1..Len(r.done) |-> r.done[i].idx]>>
+                        ELSE IF r.acked = <<>> THEN <<>> ELSE <<r.acked>>
             IN [st EXCEPT !.cli[c] = r.cs,
                           !.net[c].rxUpd = <<>>,
                           !.net[c].rxMut = <<>>,
